@@ -508,7 +508,8 @@ def exhaustive_strata(rng, maxlen):
     # domains: an assignment recorded for d1, d2, the pattern * and the pattern d*
     A, B, Rt = N["alice"], N["admin"], N["book_group"]
     adds = [(A, B, (D["d1"],)), (A, B, (D["*"],)), (A, B, (D["d*"],)), (B, Rt, (D["d2"],))]
-    queries = [[HAS, A, B, [D["d1"]]], [HAS, A, Rt, [D["d2"]]], [HAS, A, B, [D["e1"]]]]
+    # (the pattern domain itself is also queried literally: it then has a cached manager of its own)
+    queries = [[HAS, A, B, [D["d1"]]], [HAS, A, Rt, [D["d2"]]], [HAS, A, B, [D["e1"]]], [HAS, A, B, [D["*"]]]]
     closing = [[HAS, a, b, [d]] for d in (D["d1"], D["d2"], D["e1"]) for a in (A, B) for b in (B, Rt)]
     yield from gen_sequences(rng, "dm", adds, queries, maxlen, closing, stratum="exhaustive-dm")
 
@@ -537,6 +538,8 @@ def gen_random(rng, count, kinds, tie_only=False):
             rls = rls + rng.sample(pats, 1)           # second-position patterns
         domsets = [[D["d1"]], [D["d2"]], [D["*"]], [D["d*"]]] if domained else [[]]
         qdoms = [[D["d1"]], [D["d2"]], [D["e1"]]] if domained else [[]]
+        if domained and rng.random() < 0.4:
+            qdoms = qdoms + [[D["*"]]] + ([[D["d*"]]] if rng.random() < 0.5 else [])   # pattern domains queried literally
         if kind == "dm" and tie_only:
             domsets += [[], [D["d1"], D["d2"]]]
         force, ops = [], []
